@@ -35,6 +35,7 @@ fn scheme(input: Span<'_>) -> IResult<Span<'_>, Span<'_>> {
 
 fn is_path_char(c: char) -> bool {
     c.is_ascii_alphanumeric()
+        || c == '~'
         || c == '$'
         || c == '-'
         || c == '_'
